@@ -387,7 +387,16 @@ fn find_free_symbols_in_proc<'a>(
     env: &mut HashSet<&'a Cell>,
     free: &mut HashSet<&'a Cell>,
 ) -> Result<(), Error> {
-    if car.is_quote() || car.is_quasiquote() {
+    if car.is_quote() {
+        return Ok(());
+    }
+
+    // A quasiquote template is data, but the operands of unquote at nesting depth 0
+    // are expressions and may refer to variables of enclosing procedures.
+    if car.is_quasiquote() {
+        if let Some(template) = cdr.car() {
+            find_free_symbols_in_quasiquote(template, 0, env, free)?;
+        }
         return Ok(());
     }
 
@@ -454,6 +463,34 @@ fn find_free_symbols_in_proc<'a>(
     }
 
     Ok(())
+}
+
+fn find_free_symbols_in_quasiquote<'a>(
+    template: &'a Cell,
+    depth: usize,
+    env: &mut HashSet<&'a Cell>,
+    free: &mut HashSet<&'a Cell>,
+) -> Result<(), Error> {
+    match template {
+        Cell::Vector(vector) => {
+            for it in vector {
+                find_free_symbols_in_quasiquote(it, depth, env, free)?;
+            }
+            Ok(())
+        }
+        Cell::Pair(car, cdr) => {
+            if let (true, Some(operand)) = (car.is_unquote() || car.is_quasiquote(), cdr.car()) {
+                return match (car.is_unquote(), depth) {
+                    (true, 0) => find_free_symbols(operand, env, free),
+                    (true, _) => find_free_symbols_in_quasiquote(operand, depth - 1, env, free),
+                    (false, _) => find_free_symbols_in_quasiquote(operand, depth + 1, env, free),
+                };
+            }
+            find_free_symbols_in_quasiquote(car, depth, env, free)?;
+            find_free_symbols_in_quasiquote(cdr, depth, env, free)
+        }
+        _ => Ok(()),
+    }
 }
 
 /// Interally defined symbols
